@@ -101,7 +101,9 @@ CLAIMED = {
             "the same run; the SQLite table returns the saved row whatever it held; calibrate() with a folder leaves the returned state on disk. A Lean witness shows stale "
             "series rows when the folder belongs to a different run (known finding); RLScheduler cannot be pickled (known finding). The contracts dec(enc x) = x are "
             "checked on tens of thousands of floats through the real CSV/JSON/HDF5/SQLite paths, and restored calibrators are compared recursively, bit for bit, with the "
-            "saved ones over scripts of calibrate/checkpoint/restore/new-run (all sampler classes, all losses, zero-batch checkpoints).",
+            "saved ones over scripts of calibrate/checkpoint/restore/new-run (all sampler classes, all losses, zero-batch checkpoints). The folder as a directory: a restore reads only the five "
+            "named files (a file under any other name - added, replaced, removed - changes nothing it returns) and a save leaves every other file as it was; the list of names is "
+            "compared on every run with the data-file names that occur in the source of the package, and stale files are planted under every name the code knows but does not write.",
             "Trusted: Lean kernel; json/pickle/h5py/sqlite3 internals (round trips sampled, not proved); harness/vp/deep.py defines observable state. Partial: different-run folders and RL scheduler are known findings.",
             "DESIGN.md §4 C04"),
     "C06": ("Lean 4 proof (SQLite: failed save keeps the previous row, never a hybrid; five-file back-end: exact classification of crash prefixes, partial theorem + negation of the full statement with witness) + real SIGKILL at every system call of a real save, byte-level truncation, exception at every SQLite statement",
